@@ -164,6 +164,10 @@ func takeCPUs(
 			})
 			cpusPerCore := acc.topology.CPUsPerCore()
 			for _, cpus := range freeCPUs {
+				// do not take a whole physical core from the next socket if less than a core is still needed
+				if !acc.needs(cpusPerCore) {
+					break
+				}
 				for i := 0; i < len(cpus); i += cpusPerCore {
 					acc.take(cpus[i : i+cpusPerCore]...)
 					if acc.isSatisfied() {
